@@ -323,6 +323,7 @@ func (fgen *funcGen) irCallInst(new ir.Instruction, old *ast.CallInst) error {
 	}
 	// The callee type is always pointer to function type.
 	ptrToSig := types.NewPointer(sig)
+	ptrToSig.AddrSpace = fgen.gen.programAddrSpace()
 	if n, ok := old.AddrSpace(); ok {
 		// The callee is a pointer into the address space of the call.
 		ptrToSig.AddrSpace = irAddrSpace(n)
@@ -350,7 +351,9 @@ func (fgen *funcGen) irCallInst(new ir.Instruction, old *ast.CallInst) error {
 			inst.ReturnAttrs[i] = retAttr
 		}
 	}
-	// (optional) Address space.
+	// (optional) Address space; the program address space of the data layout
+	// when none is written.
+	inst.AddrSpace = fgen.gen.programAddrSpace()
 	if n, ok := old.AddrSpace(); ok {
 		inst.AddrSpace = irAddrSpace(n)
 	}
